@@ -5,7 +5,7 @@ import sys
 
 from flow.record import RecordDescriptor
 from flow.record.adapter import AbstractReader, AbstractWriter
-from flow.record.base import normalize_fieldname
+from flow.record.base import RE_VALID_FIELD_NAME, normalize_fieldname
 from flow.record.selector import make_selector
 from flow.record.utils import is_stdout
 
@@ -70,8 +70,11 @@ class CsvfileReader(AbstractReader):
 
         self.dialect = "excel"
         if self.fp.seekable():
-            self.dialect = csv.Sniffer().sniff(self.fp.read(1024))
+            sample = self.fp.read(1024)
             self.fp.seek(0)
+            if not self._is_excel_header(sample):
+                # csv.Sniffer only recognises a quoted cell at the end of a line when the line ends in "\n"
+                self.dialect = csv.Sniffer().sniff(sample.replace("\r\n", "\n"))
         self.reader = csv.reader(self.fp, dialect=self.dialect)
 
         if isinstance(fields, str):
@@ -86,6 +89,16 @@ class CsvfileReader(AbstractReader):
 
         # Create RecordDescriptor from fields, skipping fields starting with "_" (reserved for internal use)
         self.desc = RecordDescriptor("csv/reader", [("string", col) for col in self.fields if not col.startswith("_")])
+
+    @staticmethod
+    def _is_excel_header(sample):
+        """True if the first row, read as plain comma-separated values (what CsvfileWriter writes), consists of
+        field names: then there is nothing to guess (the sniffer takes letters for delimiters in small files)."""
+        try:
+            header = next(csv.reader(sample.splitlines(True)), [])
+        except csv.Error:
+            return False
+        return len(header) > 0 and all(RE_VALID_FIELD_NAME.match(normalize_fieldname(col)) for col in header)
 
     def close(self):
         if self.fp:
